@@ -41,7 +41,13 @@ func BuildUnits(p PubPlan) []media.Unit {
 			payload = media.AacSeqHeaderPayload(p.AacSr, 2)
 		case media.KVideo:
 			typ = rtmpc.TypeVideo
-			if !s.Empty {
+			if s.Tiny > 0 && !s.Empty {
+				codec := byte(7)
+				if p.VideoCodec == media.CodecHEVC {
+					codec = 12
+				}
+				payload = []byte{0x20 | codec, 2, 0, 0, 0}[:s.Tiny]
+			} else if !s.Empty {
 				n := s.Nals
 				if n < 1 {
 					n = 1
